@@ -738,8 +738,11 @@ class VirtRig:
                     rig.line_sites.append((frame.f_code.co_filename.rsplit('/', 1)[-1], frame.f_lineno))
                 if rig.line_count in targets:
                     rig.ints_done += 1
-                    rig.trace.append({'e': 'int', 'k': rig.ints_done,
+                    ignored = signal.getsignal(signal.SIGINT) is signal.SIG_IGN
+                    rig.trace.append({'e': 'int', 'k': rig.ints_done, 'ignored': int(ignored),
                                       'at': f'{frame.f_code.co_filename.rsplit("/", 1)[-1]}:{frame.f_lineno}'})
+                    if ignored:
+                        return local        # the calling thread has SIGINT set to "ignore" here: a real Ctrl-C is simply lost
                     raise KeyboardInterrupt()
             return local
 
